@@ -24,7 +24,7 @@ RULE = ("seeded random acyclic stock/flow specs (1-3 stocks, flows/biflows/conve
 ASSUMPTIONS = ["step(h,ts)=h for t>ts and pulse=v/dt at first(+k*interval): the convention of the library's own test_sddsl_functions",
                "ill-conditioned specs (near a discontinuity, |v|>1e12, tiny divisors) are dropped by a reference-side rule and counted",
                "random-number functions are excluded here (C08 covers them)"]
-REQUIRED = {"points_edit_cells": 500, "scenario_override_cells": 1000, "redefinition_cells": 1000, "models_with_run_specs_set_after_definition": 20, "memo_events_checked": 1000, "df_cells": 1000, "call_cells": 1000, "plot_cells": 500}
+REQUIRED = {"scenarios_run_on_a_coarser_grid_first": 30, "points_edit_cells": 500, "scenario_override_cells": 1000, "redefinition_cells": 1000, "models_with_run_specs_set_after_definition": 20, "memo_events_checked": 1000, "df_cells": 1000, "call_cells": 1000, "plot_cells": 500}
 BUDGET_S = {"quick": 100, "thorough": 1200}
 
 
@@ -118,7 +118,24 @@ def compare_dsl(sp, names, times, table, counters, tol=1e-9, late_runspecs=False
     rec = M.MemoRecorder()
     b = bptk()
     try:
-        b.register_model(m, scenario_manager="smC01")
+        import math as _math
+        coarse_first = (not late_runspecs) and getattr(compare_dsl, "_n", 0) % 3 == 0
+        compare_dsl._n = getattr(compare_dsl, "_n", 0) + 1
+        if coarse_first:
+            # the scenario is first run on a coarser grid (whole-number start, dt 1), then given the run specs of the specification the way
+            # REST /run settings do it (scenario attributes + scenario cache reset) and run again: only the second run is judged
+            c0 = float(_math.floor(start))
+            b.register_model(m, scenario_manager="smC01", scenario={"base": {"runspecs": {"starttime": c0, "stoptime": c0 + 3.0, "dt": 1.0}}})
+            try:
+                b.run_scenarios(scenarios=["base"], scenario_managers=["smC01"], equations=list(names), return_format="df")
+            except Exception:
+                pass
+            sc_ = b.get_scenario("smC01", "base")
+            b.reset_scenario_cache(scenario_manager="smC01", scenario="base")
+            sc_.starttime, sc_.stoptime, sc_.dt = start, float(sp["run"]["stop"]), dt
+            counters["scenarios_run_on_a_coarser_grid_first"] = 1
+        else:
+            b.register_model(m, scenario_manager="smC01")
         with rec:
             df = b.run_scenarios(scenarios=["base"], scenario_managers=["smC01"], equations=list(names), return_format="df")
     except Exception as e:
